@@ -43,6 +43,7 @@ def _is_name_expr(e) -> bool:
 
 
 _depth = [0]
+_CTX = {}
 
 
 def _classify_part(e, org, at, closed_ok):
@@ -55,6 +56,19 @@ def _classify_part(e, org, at, closed_ok):
             (inner.func.value if isinstance(inner.func, ast.Attribute) else inner)
         if inner is e:
             break
+    # containers and selections keep the kind of their elements: pd.Series(x), np.asarray(x), x.values, x[mask]
+    changed = True
+    while changed:
+        changed = False
+        if isinstance(inner, ast.Call) and au.method_name(inner) in ("Series", "asarray", "array", "Index", "list", "tuple") and inner.args:
+            inner, changed = inner.args[0], True
+        elif isinstance(inner, ast.Call) and au.method_name(inner) in ("to_numpy", "tolist", "copy", "astype", "reset_index") and isinstance(inner.func, ast.Attribute):
+            inner, changed = inner.func.value, True
+        elif isinstance(inner, ast.Attribute) and inner.attr in ("values", "array", "str"):
+            inner, changed = inner.value, True
+        elif isinstance(inner, ast.Subscript) and au.const_str(inner.slice) is None and not isinstance(inner.slice, ast.Constant) \
+                and not (isinstance(inner.value, ast.Attribute) and inner.value.attr in ("node_names", "asset_names")):
+            inner, changed = inner.value, True
     if isinstance(inner, ast.Subscript) and au.const_str(inner.slice) in DIGIT_COLUMNS:
         return "D"
     if isinstance(inner, ast.Attribute) and inner.attr == "index":
@@ -68,6 +82,23 @@ def _classify_part(e, org, at, closed_ok):
     # a local bound to a name / loop element of names
     if isinstance(inner, ast.Name):
         ds = list(org.ff.defs(inner.id, at))
+        # parameter of a nested helper that its enclosing function calls exactly once: what the caller passes
+        fn0 = org.ff.fn
+        if ds and all(d.kind == "param" for d in ds) and getattr(fn0, "parent", None) is not None and _CTX.get("ctx") is not None and _depth[0] < 4:
+            from .. import canon as _canon
+            calls = [c for c in au.walk_local(fn0.parent.node, include_self=False) if isinstance(c, ast.Call) and isinstance(c.func, ast.Name) and c.func.id == fn0.name]
+            names = [q.name for q in fn0.params]
+            if len(calls) == 1 and inner.id in names:
+                c = calls[0]
+                k = names.index(inner.id)
+                a = c.args[k] if k < len(c.args) and not any(isinstance(x, ast.Starred) for x in c.args) else au.kwarg(c, inner.id)
+                if a is not None:
+                    ctx0 = _CTX["ctx"]
+                    _depth[0] += 1
+                    try:
+                        return _classify_part(a, ctx0.origins(fn0.parent, values_only=True), ctx0.p.enclosing_stmt(c), closed_ok)
+                    finally:
+                        _depth[0] -= 1
         if len(ds) == 1 and ds[0].kind == "assign" and ds[0].value is not None and ds[0].index in (None, ()) and _depth[0] < 4:
             # exactly one plain definition: the part is what that expression is (not everything that flows into it)
             _depth[0] += 1
@@ -118,6 +149,10 @@ def _injective(kinds, consts):
     return True
 
 
+GROUPING = ("factorize", "unique", "nunique", "groupby", "duplicated", "drop_duplicates", "value_counts", "get_indexer", "searchsorted", "merge",
+            "isin", "in1d", "intersect1d", "set", "dict", "Categorical")
+
+
 def _sink(p, fn, node):
     """How is the concatenation used? 'message' | 'join key' | 'column label' | 'compared' | 'cell value' | 'other'."""
     st = p.enclosing_stmt(node)
@@ -130,6 +165,8 @@ def _sink(p, fn, node):
             return "compared (probe)", None
         if isinstance(anc, ast.Call) and au.method_name(anc) == "rename":
             return "column label", None
+        if isinstance(anc, ast.Call) and au.method_name(anc) in GROUPING:
+            return "join key", au.method_name(anc)
         if anc is st:
             break
     if isinstance(st, ast.Assign) and len(st.targets) == 1:
@@ -156,6 +193,12 @@ def _sink(p, fn, node):
             return "cell value", col
         if isinstance(t, ast.Name):
             v = t.id
+            # the local is grouped / numbered / de-duplicated: equal strings become one group
+            for n in au.walk_local(fn.node, include_self=False):
+                if isinstance(n, ast.Call) and au.method_name(n) in GROUPING:
+                    operands = list(n.args) + [k.value for k in n.keywords] + ([n.func.value] if isinstance(n.func, ast.Attribute) else [])
+                    if any(isinstance(x, ast.Name) and x.id == v for o in operands for x in au.walk_local(o)):
+                        return "join key", v
             for n in au.walk_local(fn.node, include_self=False):
                 if isinstance(n, ast.Subscript) and isinstance(n.ctx, ast.Store):
                     sl = n.slice
@@ -169,6 +212,7 @@ def _sink(p, fn, node):
 @analysis("keys", ["C07.a", "C07.b", "C09.a", "C09.b", "C09.d", "C09.e"])
 def run(ctx):
     p = ctx.p
+    _CTX["ctx"] = ctx
     # ------------------------------------------------------------------ C09.b alphabet of internal variable names
     var_names = {}
     for fn in p.all_functions():
